@@ -20,10 +20,39 @@ def is_not_too_large(event, config):
         raise StorageError("invalid: 280 characters should be enough for anybody")
 
 
+def _is_hex(value, length):
+    return (
+        isinstance(value, str)
+        and len(value) == length
+        and all(c in "0123456789abcdef" for c in value)
+    )
+
+
+def is_well_formed(event):
+    """
+    NIP-01 shape: lowercase hex id/pubkey/sig, integer created_at, tags as lists named by a string.
+    Anything else cannot be stored and served back verbatim.
+    """
+    return (
+        _is_hex(event.id, 64)
+        and _is_hex(event.pubkey, 64)
+        and _is_hex(event.sig, 128)
+        and type(event.created_at) is int
+        and event.created_at >= 0
+        and isinstance(event.tags, list)
+        and all(
+            isinstance(tag, list) and tag and isinstance(tag[0], str)
+            for tag in event.tags
+        )
+    )
+
+
 def is_signed(event, config):
     """
     Ensure the event is correctly formatted and signed
     """
+    if not is_well_formed(event):
+        raise StorageError("invalid: Bad format")
     # verify() checks the signature against the recomputed hash, not against the claimed id
     if event.id != Event.compute_id(
         event.pubkey, event.created_at, event.kind, event.tags, event.content
